@@ -9,6 +9,10 @@
 #include <fstream>
 #include <unistd.h>
 #include <malloc.h>
+#include <pthread.h>
+#if defined(__SANITIZE_ADDRESS__)
+#include <sanitizer/lsan_interface.h>
+#endif
 
 #ifndef DSIM_BACKEND
 #define DSIM_BACKEND "unknown"
@@ -104,6 +108,30 @@ static void apply_perturb(const Plan &p) {
 #endif
 }
 
+// threadrun mode: every run executes in its own short-lived thread and the main thread never touches the library
+// (a dispatcher that hands each job to a fresh worker thread): per-thread FFT state is created and destroyed once per run.
+struct ThreadRun { const Scenario *s; const Plan *p; RunResult *r; };
+static void *thread_run_main(void *v) { ThreadRun *t = (ThreadRun *) v; t->s->exec(*t->p, *t->r); return nullptr; }
+static void exec_maybe_in_thread(const Scenario *s, const Plan &p, RunResult &r) {
+    if (!p.cfg.geti("threadrun")) { s->exec(p, r); return; }
+    // the plan is executed twice, in two successive threads (the first has exited before the second starts), so that one plan
+    // carries the whole thread create/exit history and replays on its own
+    RunResult first;
+    ThreadRun t0{s, &p, &first};
+    pthread_attr_t at; pthread_attr_init(&at); pthread_attr_setstacksize(&at, 8 << 20);
+    pthread_t th; pthread_create(&th, &at, thread_run_main, &t0); pthread_join(th, nullptr);
+    ThreadRun t{s, &p, &r};
+    pthread_create(&th, &at, thread_run_main, &t); pthread_join(th, nullptr); pthread_attr_destroy(&at);
+    r.probes.add("run_in_fresh_thread");
+    if (first.v.set && !r.v.set) r.v = first.v;
+    if (!r.v.set && first.ev.get() != r.ev.get())
+        r.v.raise("thread-dependent", "C16.thread-rerun", "the same sequence gives different observable results in a second short-lived thread after the first one has exited");
+#if defined(__SANITIZE_ADDRESS__)
+    // the thread is gone: nothing it allocated in its thread_local constructors may be alive
+    if (!r.v.set && __lsan_do_recoverable_leak_check()) r.v.raise("leak", "C16.leak-thread-exit", "LeakSanitizer: per-thread state is still allocated (unreachable) after the thread that ran the sequence has exited");
+#endif
+}
+
 int main(int argc, char **argv) {
     setvbuf(stdout, nullptr, _IOLBF, 1 << 16);
     install_signal_handlers();
@@ -138,7 +166,7 @@ int main(int argc, char **argv) {
         printf("BEGIN %llu\n", (unsigned long long) p.seed); fflush(stdout);
         RunResult r;
         apply_perturb(p);
-        s->exec(p, r);
+        exec_maybe_in_thread(s, p, r);
         printf("%s\n", result_line(p.seed, p, r, false, true).c_str());
         fflush(stdout);
         _exit(r.v.set ? 1 : 0);
@@ -154,11 +182,12 @@ int main(int argc, char **argv) {
         opts.setu("run_index", i);
         Plan p = s->gen(sd, opts);
         if (!p.cfg.has("perturb")) p.cfg.seti("perturb", opts.has("perturb") ? opts.geti("perturb") : 1 + (int64_t) (sd % 255));
+        if (opts.geti("threadrun")) p.cfg.seti("threadrun", 1);
         RunResult r;
         apply_perturb(p);
-        s->exec(p, r);
+        exec_maybe_in_thread(s, p, r);
         if (r.v.set) viol++;
-        printf("%s\n", result_line(sd, p, r, false, (int) (i - first) < samples).c_str());
+        printf("%s\n", result_line(sd, p, r, (int) (i - first) < samples, (int) (i - first) < samples).c_str());
         fflush(stdout);
         if (r.v.set && r.v.cls == "leak") {   // leaked blocks would be reported again by every later leak check of this process
             printf("RESTART\n"); fflush(stdout); _exit(0);
